@@ -131,7 +131,7 @@ func c04interpOne(c *Ctx, d c04case) {
 		return
 	}
 	tree := c04factorTree(o.Tree)
-	if len(tree) > c.Pick(22000, 90000) {
+	if len(tree) > c.Pick(22000, 40000) {
 		// coqc needs ~14 ms per 100 bytes of tree term: very large programs are left to the
 		// thorough tier (counted)
 		c.Dist["interp_skipped_large_tree"]++
